@@ -34,6 +34,8 @@ def check(c: Check):
     clause_f(c)
     clause_g(c)
     clause_h(c)
+    from .common import sweep_records
+    sweep_records(c, 'C04-rec', ['exactly_lib.execution', 'exactly_lib.tcfs'], floor=15)
 
 
 # ---------------------------------------------------------------- helpers
